@@ -237,6 +237,25 @@ def rr07xThermalTree (td : String) (s : SpecInfo) : Expr :=
     (mul (mul (mul (mul (V "opt_thd") (nu0Tree s)) (N "2.0")) (V "densites")) (expE (dvd (.neg (.var ("eb_".toList ++ s.alias))) (V td))))
     (N "0.0")
 
+/-- the two guards of every RR07 desorption law: a mantle exists, and the species is bound weakly enough for this process:
+    `mantabund > 1e-30 ? (eb_max >= E_b ? (rate) : 0.0) : 0.0` with the species' own binding energy `E_b` -/
+def rr07GuardTree (ebmax : String) (s : SpecInfo) (rate : Expr) : Expr :=
+  .cond (.bin ['>'] (V "mantabund") (N "1e-30"))
+    (.cond (.bin ['>', '='] (V ebmax) (M s.ebId)) rate (N "0.0")) (N "0.0")
+
+/-- `opt_h2d * h2deseff * H2formation * y[IDX_HI] / mant` -/
+def rr07H2RateTree : Expr :=
+  dvd (mul (mul (mul (V "opt_h2d") (V "h2deseff")) (V "H2formation")) (.idx (V "y") (V "IDX_HI"))) (V "mant")
+
+def rr07H2Tree (s : SpecInfo) : Expr := rr07GuardTree "eb_h2d" s rr07H2RateTree
+
+/-- `opt_crd * 4.0 * pi * crdeseff * (zeta / zism) * 1.64e-4 * gxsec / mant` -/
+def rr07CosmicRayRateTree : Expr :=
+  dvd (mul (mul (mul (mul (mul (mul (V "opt_crd") (N "4.0")) (V "pi")) (V "crdeseff")) (dvd (V "zeta") (V "zism"))) (N "1.64e-4"))
+    (V "gxsec")) (V "mant")
+
+def rr07CosmicRayTree (s : SpecInfo) : Expr := rr07GuardTree "eb_crd" s rr07CosmicRayRateTree
+
 /-- do the emitted texts of these laws parse to exactly the trees above (all sign classes, all species cases)? -/
 def lawTreesMatch : Bool :=
   (litClasses 0).all fun a => specCases.all fun s =>
@@ -244,6 +263,10 @@ def lawTreesMatch : Bool :=
     (match grainText .hh93 .thermal "" {} a s s with | .ok t => parseC t == some (hh93ThermalTree "Tgas" s) | _ => false) &&
     (match grainText .hh93 .thermal "" { tdust := "Tdust" } a s s with | .ok t => parseC t == some (hh93ThermalTree "Tdust" s) | _ => false) &&
     (match grainText .rr07 .freeze "" {} a s s with | .ok t => parseC t == some (rr07DepletionTree a s) | _ => false) &&
-    (match grainText .rr07x .thermal "" {} a s s with | .ok t => parseC t == some (rr07xThermalTree "Tgas" s) | _ => false)
+    (match grainText .rr07x .thermal "" {} a s s with | .ok t => parseC t == some (rr07xThermalTree "Tgas" s) | _ => false) &&
+    (match grainText .rr07x .thermal "" { tdust := "Tdust" } a s s with | .ok t => parseC t == some (rr07xThermalTree "Tdust" s) | _ => false) &&
+    (match grainText .rr07 .h2des "" {} a s s with | .ok t => parseC t == some (rr07H2Tree s) | _ => false) &&
+    (match grainText .rr07x .h2des "" {} a s s with | .ok t => parseC t == some (rr07H2Tree s) | _ => false) &&
+    (match grainText .rr07 .cosmicray "" {} a s s with | .ok t => parseC t == some (rr07CosmicRayTree s) | _ => false)
 
 end Naunet.Grain
